@@ -101,9 +101,23 @@ def genericize(item, decl, with_where):
     return head + g + tail, m.group(3)
 
 
-def header_violations(o, name, decl):
-    """the property's four structural clauses, evaluated on the real impl headers"""
+def header_violations(o, name, decl, gitem=""):
+    """the property's structural clauses, evaluated on the real impl headers"""
     out = []
+    # Bounds: what the declaration demands of its parameters (inline bounds, its where-clause) is demanded by every
+    # impl that names the type - otherwise `S<T>` is not even well-formed inside the impl
+    m_where = re.search(r"\bwhere\s+(\w+)\s*:\s*Default\b", gitem)
+    for im in o["impls"]:
+        text = " ; ".join(im["params"]) + " ; " + " ; ".join(im["where"])
+        if not re.search(r"(?<![\w:])" + re.escape(name) + r"\b", " ".join([im["trait"]["path"] if im["trait"] else "", im["self_ty"]] + im["where"])):
+            continue
+        for p in decl:
+            if p["k"] == "ty" and p["bound"] and not re.search(r"\b" + p["name"] + r"\s*:[^;]*\bClone\b", text):
+                out.append(("Bounds", f"the inline bound `{p['name']}: Clone` of the declaration is missing from the impl <{', '.join(im['params'])}> where {im['where']}"))
+            if p["k"] == "lt" and p["bound"] and p["name"] != "'a" and not re.search(re.escape(p["name"]) + r"\s*:[^;]*'a\b", text):
+                out.append(("Bounds", f"the lifetime bound `{p['name']}: 'a` of the declaration is missing from the impl <{', '.join(im['params'])}>"))
+        if m_where and not re.search(r"\b" + m_where.group(1) + r"\s*:[^;]*\bDefault\b", text):
+            out.append(("Bounds", f"the where-clause `{m_where.group(1)}: Default` of the declaration is missing from the impl: where {im['where']}"))
     args = [p["name"] for p in decl]
     want = (name + " < " + " , ".join(args) + " >") if args else None
     for im in o["impls"]:
@@ -191,7 +205,7 @@ def run(chk, tier, seed, replay):
             chk.deviation(k, f"a supported input is not accepted once it declares generics: {o['outcome']}: {o.get('msg', '')[:160]}",
                           case={"derive": d, "item": gitem}, expected="expansion", observed=o, tags={"kind": "rejected", "derive": d})
             continue
-        for clause, what in header_violations(o, name, decl)[:3]:
+        for clause, what in header_violations(o, name, decl, gitem)[:3]:
             chk.deviation(k + "|" + clause, f"impl header clause {clause}: {what}", case={"derive": d, "item": gitem},
                           expected=f"{clause} holds", observed=[im["text"][:300] for im in o["impls"]][:2],
                           tags={"kind": "header_" + clause, "derive": d})
